@@ -85,7 +85,33 @@ def _child_run(arg):
         case = arg["case"]
         dec = core.Decider(replay=arg["decisions"])
     t0 = time.monotonic()
-    res = prop.run_case(case, dec)
+    try:
+        res = prop.run_case(case, dec)
+    except core.HarnessError:
+        raise
+    except Exception as e:  # noqa: BLE001
+        # An exception that escaped the property's own classification.  If it
+        # passed through library code it is a failure of the library on a
+        # history the reference handles (reported, replayable); if it never
+        # touched the library it is a bug of the harness (exit 2).
+        import traceback
+        lib = os.path.realpath(OQUPY_SRC) + os.sep
+        frames = [f for f in traceback.extract_tb(e.__traceback__)
+                  if os.path.realpath(f.filename).startswith(lib)]
+        if not frames:
+            raise
+        where = "%s:%s" % (os.path.basename(frames[-1].filename),
+                           frames[-1].name)
+        res = {
+            "violations": [{
+                "class": "unexpected_exception_in_library",
+                "signature": "%s/%s" % (type(e).__name__, where),
+                "detail": "%s in %s: %s" % (type(e).__name__, where,
+                                            str(e)[:200])}],
+            "notes": [], "digest": "sha256:" + hashlib.sha256(
+                (type(e).__name__ + where).encode()).hexdigest()[:24],
+            "events": 0, "sim_ms": 0, "outcomes": ["raised"], "probes": {},
+            "faults_fired": {}, "nontrivial": False, "key": "raised"}
     res["wall"] = time.monotonic() - t0
     res["case"] = case
     res["ndecisions"] = len(dec.trace)
